@@ -384,6 +384,7 @@ func newC12Server(shape c12Shape) *c12Server {
 // relock replaces the lock set after a case left a lock behind (the constructor reads the
 // slot at construction time, so connections opened afterwards use the new lockers).
 var c12Acquires int64
+var c12Stuck int
 
 func (s *c12Server) relock() {
 	c12Acquires += s.tab.acquires
@@ -565,6 +566,10 @@ func childC12(args []string) int {
 							continue
 						}
 						for _, kind := range []string{"panic", "panic-error", "panic-runtime", "ioerr", "apperr"} {
+							if c12Stuck >= 4 {
+								run.Count("fault_cases_skipped_after_4_stuck_requests", 1)
+								continue
+							}
 							announceCase(fmt.Sprintf("%s %s#%d %s", what, comp, idx, kind))
 							srv.seed()
 							plan := &faultPlan{counts: map[string]int{}, comp: comp, at: idx, kind: kind}
@@ -578,6 +583,7 @@ func childC12(args []string) int {
 							bad := ""
 							switch {
 							case stuck:
+								c12Stuck++
 								w["goroutines"] = lastLines(filterDump(allStacks()), 80)
 								bad = "the client neither gets a reply nor is closed (request stuck)"
 							case err != nil && errors.Is(err, wire.ErrMalformed):
